@@ -290,15 +290,20 @@ def bad_outcomes(outcomes):
 def shrink(prop, hyp, case, budget=400):
     """delta-debug the command list (then let the property shrink further) while an unlisted
     violation/drift persists"""
-    def fails(c):
+    def fails(c, need_violation=None):
         try:
             _, outs = evaluate(prop, hyp, c)
         except Infra:
             return False
         except Exception:
             return False
+        if need_violation if need_violation is not None else want_violation:
+            # a concrete failing input must stay one: never shrink it into a case that only shows drift
+            return any(o.kind == "violation" for o in outs)
         return bool(bad_outcomes(outs))
 
+    want_violation = False
+    want_violation = fails(case, need_violation=True)
     cmds = list(case["cmds"])
     keep = getattr(prop, "keep_cmd", None)      # protocol commands a case cannot do without
     tries = 0
